@@ -805,22 +805,22 @@ def check_C07(ctx, tier, seed):
         print("NOTE: C07 ran with reduced coverage: %s" % "; ".join(degraded), flush=True)
     # (d) build matrix
     matrix_compare(ctx, vd, matrix_keys, 20_000 if quick else 400_000)
-    if not quick:
-        # swarm over build knobs: random subsets of the optimisation-only features
-        import random
-        rnd = random.Random(seed)
-        extra = []
-        for i in range(8):
-            feats = sorted(set(PLAIN + [f for f in OPT_ONLY_FEATURES if rnd.random() < 0.45]))
-            if "detect-features" in feats and "std" not in feats:
-                feats.append("std")
-            k = "m_rand_%d" % i
-            CONFIGS[k] = dict(tlsh=feats, sim=[], rustflags=rnd.choice(["", "", "-C target-feature=+sse4.1,+ssse3", "-C target-feature=+avx2"]))
-            extra.append(k)
-        matrix_compare(ctx, vd, ["m_plain"] + extra, 200_000)
-        vd.extra["random_feature_sets"] = {k: {"features": CONFIGS[k]["tlsh"], "rustflags": CONFIGS[k]["rustflags"]} for k in extra}
-        for k in extra:
-            shutil.rmtree(os.path.join(ctx.build_root, k), ignore_errors=True)
+    # swarm over build knobs: seeded random subsets of the optimisation-only features (x a random static tier), rebuilt
+    # for every run -- the fixed matrix above cannot contain every combination
+    import random
+    rnd = random.Random(seed)
+    extra = []
+    for i in range(3 if quick else 8):
+        feats = sorted(set(PLAIN + [f for f in OPT_ONLY_FEATURES if rnd.random() < 0.45]))
+        if "detect-features" in feats and "std" not in feats:
+            feats.append("std")
+        k = "m_rand_%d" % i
+        CONFIGS[k] = dict(tlsh=feats, sim=[], rustflags=rnd.choice(["", "", "-C target-feature=+sse4.1,+ssse3", "-C target-feature=+avx2"]))
+        extra.append(k)
+    matrix_compare(ctx, vd, ["m_plain"] + extra, 20_000 if quick else 200_000)
+    vd.extra["random_feature_sets"] = {k: {"features": CONFIGS[k]["tlsh"], "rustflags": CONFIGS[k]["rustflags"]} for k in extra}
+    for k in extra:
+        shutil.rmtree(os.path.join(ctx.build_root, k), ignore_errors=True)
     # (c) the same races on the unhooked crate under Miri (real OnceLock)
     if quick:
         miri_race(ctx, vd, "miri_sse2", [seed], 16)
